@@ -45,4 +45,8 @@ QuickPlan ==
   \cup {[Plain EXCEPT !.threads = 4], [Plain EXCEPT !.threads = 4, !.cache = "cold"], [Plain EXCEPT !.threads = 4, !.diag = Flags]}
   \cup {[Plain EXCEPT !.proc = "fresh"], [Plain EXCEPT !.proc = "fresh", !.diag = Flags], [Plain EXCEPT !.proc = "fresh", !.cache = "cold"]}
   \cup {[Plain EXCEPT !.proc = "fresh", !.threads = 4], [diag |-> Flags, cache |-> "cold", threads |-> 4, proc |-> "fresh"]}
+\* a six-run plan for the expensive workload (all repository scenarios)
+SmallPlan == {Plain, [Plain EXCEPT !.cache = "cold"], [Plain EXCEPT !.threads = 4], [Plain EXCEPT !.proc = "fresh"],
+              [Plain EXCEPT !.diag = Flags \ {"debug_information"}],
+              [diag |-> Flags, cache |-> "cold", threads |-> 4, proc |-> "fresh"]}
 =============================================================================
